@@ -91,8 +91,8 @@ void DataSet::setData(const T &value)
     DataType dtype = hydra.element_data_type();
     NDSize shape = hydra.shape();
 
-    // text and numbers cannot be converted into each other: refuse before the data is resized
-    if ((dtype == DataType::String) != (dataType() == DataType::String)) {
+    // text, booleans and numbers cannot be converted into each other: refuse before the data is resized
+    if (!data_types_convertible(dtype, dataType())) {
         throw std::invalid_argument("DataSet::setData: element type of the data cannot be converted to the stored element type");
     }
 
